@@ -579,6 +579,9 @@ READER_EXEMPT = {
     "IterState::skip_value|index-range|index(&slice, RangeFrom::RangeFrom(offset))": "offset is the payload of State::SkipValue, an index found in the same slice by the previous next() (C11 R1 state table)",
     "IterState::skip_eq_value|index-range|index(&slice, RangeFrom::RangeFrom((offset Add 1)))": "offset is the payload of State::SkipEqValue, the index of an '=' found in the same slice (C11 R1 `next:Duplicated`), so offset + 1 <= len",
     "IterState::check_for_duplicates{c0}|index-range|index(&(*_.0), Clone>::clone(&_))": "recorded key ranges come from the same slice",
+    # the same two sites when the search over the recorded keys is written as a loop in the function itself
+    "IterState::check_for_duplicates|index-range|index(&slice, Clone>::clone(&(*Iterator>::next(..)?)))": "recorded key ranges come from the same slice (loop spelling of the site above)",
+    "IterState::check_for_duplicates|index-range|index(&slice, Clone>::clone(&key))": "the key range was just produced from the same slice (loop spelling)",
     "IterState::check_for_duplicates{c0}|index-range|index(&(*_.0), Clone>::clone(&(*_.1)))": "the key range was just produced from the same slice",
     "IterState::next|index-range|index(&slice, RangeFrom::RangeFrom(IterState::recover(..) as Some.0))": "recover() returns a state payload or an index found by a search in the same slice",
     # ---- events/mod.rs: BytesStart invariant name_len <= buf.len()
